@@ -1339,6 +1339,11 @@ class Config:  # pylint: disable=too-many-instance-attributes
                 isinstance(field_value, list)
                 and field_value
                 and all(isinstance(item, Config) for item in field_value)
+                and not (
+                    isinstance(field, Field)
+                    and field.sensitive
+                    and sensitive_mask is not None
+                )
             ):
                 # configurations held in a list are rendered with the same options as this one
                 value = [
